@@ -4,3 +4,4 @@ import Model.Density
 import Model.Tables
 import Model.MatrixArray
 import Model.MAHeap
+import Model.FromData
